@@ -378,6 +378,21 @@ func RandomManifest(t *rapid.T, root string, o ManifestOpts) *Schema {
 			}
 			r.Methods = append(r.Methods, a)
 		}
+		// read-only / create-only annotations over the entity's fields (any mix, also one kind without the other)
+		if r.Schema != nil && r.Schema.Ref != nil && rapid.Bool().Draw(t, "annotated") {
+			var names []string
+			for _, f := range s.AllFields(s.Lookup(*r.Schema.Ref)) {
+				names = append(names, f.Name)
+			}
+			for _, nm := range names {
+				switch rapid.IntRange(0, 4).Draw(t, "ann") {
+				case 0:
+					r.ReadOnly = append(r.ReadOnly, nm)
+				case 1:
+					r.CreateOnly = append(r.CreateOnly, nm)
+				}
+			}
+		}
 		s.Resources = append(s.Resources, r)
 	}
 	return s
